@@ -165,7 +165,7 @@ def parse_tr(lst):
 
 EXACT = {1, 2, 3, 4, 5, 10, 11, 12, 13, 15, 19, 20, 21}
 MODEL_ONLY = {8, 17}
-IMPL_ONLY = {18, 22}
+IMPL_ONLY = {18, 22, 24}
 POINTS = {6, 16}
 TRANS = {7, 14}
 OBS_NAMES = {19: "prover outcome class",
@@ -313,6 +313,15 @@ def run_component(comp, streams, seed, tier, name, curves=None, extra_args=None)
         d = compare_case(cid, mm, ii, summ[cid], msm_lines)
         for code, text in d:
             res.disagreements.append((cid, code, text))
+        if comp == "r1cs" and ii and 24 in ii:
+            # the model (verification_scalars, C06 schedule) derives the weight r from the COMPLETE history of the run, on a clone
+            # that absorbs nothing else: every clone challenge must be taken after all of the main transcript's operations
+            total = ii[24][-1]
+            for pos in ii[24][:-1]:
+                if pos != "%s+0" % total:
+                    res.disagreements.append((cid, 24, "a verifier challenge is drawn from a clone taken after %s of %s transcript operations (main+on-clone); the model derives it from the complete history" % (pos, total)))
+            if len(ii[24]) != 2:
+                res.disagreements.append((cid, 24, "%d challenges drawn from clones of the verifier transcript; the model has exactly one (r)" % (len(ii[24]) - 1)))
         if comp == "batch" and ii and 22 in ii and 15 in ii:
             # the model's batch weights are one fresh ScalarField::rand draw per instance (C07 theorems quantify over
             # arbitrary independent weights): the real batch_verify must consume exactly those draws from its RNG,
@@ -633,8 +642,9 @@ def run_fixture_component(seed, tier, name):
 CUSTOM["fixture"] = run_fixture_component
 
 
-def run_integrity_component(seed, tier, name):
-    """C04 sweep on the implementation: all single-bit flips, single-field perturbations, pairwise swaps, round surgery"""
+def run_integrity_component(seed, tier, name, light=False):
+    """C04 sweep on the implementation: all single-bit flips, single-field perturbations, pairwise swaps, round surgery
+    (light: every 61st bit flip only; the adaptive attacks, field and swap alterations in full)"""
     t0 = time.time()
     res = CompResult()
     outdir = os.path.join(WORK, name)
@@ -643,7 +653,8 @@ def run_integrity_component(seed, tier, name):
     res.outdir = outdir
     curves = ["secq256k1", "zorro", "curve25519"]
     procs = [subprocess.Popen([BIN, "integrity", "--seed", str(seed), "--tier", tier, "--out", outdir, "--curves", c],
-                              stdout=subprocess.PIPE, stderr=subprocess.STDOUT, text=True, env=ENV) for c in curves]
+                              stdout=subprocess.PIPE, stderr=subprocess.STDOUT, text=True,
+                              env=dict(ENV, VERIF_INTEGRITY_LIGHT="1") if light else ENV) for c in curves]
     outs = [p.communicate(timeout=6000)[0] for p in procs]
     res.crashes = []
     res.integrity = []
@@ -678,6 +689,7 @@ def run_integrity_component(seed, tier, name):
 
 
 CUSTOM["integrity"] = run_integrity_component
+CUSTOM["integrity-light"] = lambda seed, tier, name: run_integrity_component(seed, tier, name, light=True)
 
 
 # ---------------------------------------------------------------- evidence / verdict
